@@ -17,8 +17,19 @@ What is run
 (3) schema builds: seeded random trees of schema documents (include / import, local files and stub URLs,
     payloads from the grammar); the real sequence of open / scan / parse / failure events of every resource is
     recorded and compared with the model's `build`.
-(4) seeded read/seek/tell scripts on the real DefusableReader, op for op.
+(4) seeded read/seek/tell scripts on the real DefusableReader (and DefusableTextReader when the tree has it), op for
+    op and final state, plus scan / rewind / parse sequences (`Reader.readMany`); on the real class every read is
+    also compared with a plain byte string (the exactness of the rewind, independent of Lean).
 (5) the named counter-example witnesses of Props/C13.lean are rendered by the driver and replayed.
+(6) the event model: for every prolog of the grammar family the complete sequence of entity declarations / external
+    subset requests reported by a RECORDING expat parser (handlers that return instead of raising: the external-entity
+    resolver trap) == `prologEvents`, and the fate of every entity reference of the content when the library parses
+    the document with defuse='never' (expanded / undefined entity / binary entity) == `refEvent`.
+The tree under check may carry the repairs of C13-F2 / C13-F3 (notes/fixes): `detect_variant` probes the real classes
+and every model request carries the detected variant; nothing is assumed about which tree is checked.
+Traps on every run with defusing: the SAX entity-resolution machinery (ExpatParser.external_entity_ref,
+EntityResolver.resolveEntity, prepare_input_source of a system id), every urllib.Request other than for the resource
+itself, every socket.connect / getaddrinfo -- any of them firing is a failure.
 
 Property evaluation on the real code (independent of Lean): when defusing applies and the payload declares
 an entity / external subset -> XMLResourceForbidden, no expanded text, no fetch of the external identifier;
@@ -65,9 +76,15 @@ RULE = ('one case = (defuse mode, base-URL locality, input channel, payload, rol
         'rotating channel; or one seeded schema build (tree of includes/imports) with its recorded event trace; or one '
         'seeded read/seek/tell script on the real DefusableReader; non-trivial = defusing applied (a branch of open() '
         'other than "not defused" was taken), the prolog has a DOCTYPE, the build loaded at least one sub-resource, the '
-        'script crossed the buffer edge or sought; distinct by canonical JSON')
+        'script crossed the buffer edge or sought, the scan of a scan/rewind/parse sequence went beyond the buffer, the '
+        'parsers reported an event or a reference was not "undefined" (event model); distinct by canonical JSON')
 TRUSTED = ['expat calls EntityDeclHandler / UnparsedEntityDeclHandler / ExternalEntityRefHandler before it expands or '
-           'fetches anything: observed on every payload (no expanded text, no fetch), not proved',
+           'fetches anything: observed on every payload (no expanded text, no fetch; resolver and opener traps silent), '
+           'not proved',
+           'the event model (prologEvents / refEvent: which declarations expat processes, first declaration binds, '
+           'what a reference does) is compared with a recording expat parser and with the library parse on every '
+           'generated prolog, not proved against expat; requests for external PARAMETER entities and declarations '
+           'nested in the replacement text of a parameter entity are outside the model (filtered / skipped, counted)',
            'the scanner `classify` is a model of the prolog tokenizer of expat for the grammar of Model/Prolog.lean only; '
            'it is compared with the real parser on every generated prolog (first handler reached), not proved against expat',
            'UTF-16 / ISO-8859-1 payloads are transcoded from the Lean rendering by the harness',
@@ -152,15 +169,24 @@ class Obs:
     seekable_response = True
     trace: list = []            # build trace: ('opened'|'scanned'|'parsed'|'failed', resource url, ...)
     stack: list = []            # resources whose open() is running
+    resolver: list = []         # external-entity resolver trap: calls of the SAX entity-resolution machinery
+    requests: list = []         # opener trap: every urllib.Request created (audit event)
+    net: list = []              # opener trap: every socket.connect / socket.getaddrinfo (audit event)
 
 
 def _hook(event: str, args: tuple) -> None:
-    if Obs.active and event == 'open':
+    if not Obs.active:
+        return
+    if event == 'open':
         p = args[0]
         if isinstance(p, bytes):
             p = os.fsdecode(p)
         if isinstance(p, str) and Obs.root and os.path.abspath(p).startswith(Obs.root):
             Obs.opens.append(os.path.abspath(p))
+    elif event == 'urllib.Request':
+        Obs.requests.append(str(args[0]))
+    elif event in ('socket.connect', 'socket.getaddrinfo'):
+        Obs.net.append((event, str(args[1:2])[:60]))
 
 
 class StubHandler(urllib.request.BaseHandler):
@@ -185,7 +211,75 @@ STUB_OPENER = None
 
 
 def io_kind(fp: Any) -> str:
-    return 'raw' if isinstance(fp, io.RawIOBase) else 'buffered' if isinstance(fp, io.BufferedIOBase) else 'other'
+    return ('raw' if isinstance(fp, io.RawIOBase) else 'buffered' if isinstance(fp, io.BufferedIOBase)
+            else 'text' if isinstance(fp, io.TextIOBase) else 'other')
+
+
+class NSText(io.TextIOBase):
+    """a non-seekable text stream outside TextIOWrapper (what a decoding pipe reader is)"""
+
+    def __init__(self, text: str):
+        self._s = io.StringIO(text)
+
+    def readable(self):
+        return True
+
+    def seekable(self):
+        return False
+
+    def read(self, n=-1):
+        return self._s.read(-1 if n is None else n)
+
+    def seek(self, *a):
+        raise io.UnsupportedOperation('seek')
+
+
+VARIANT: Optional[dict] = None
+
+
+def text_reader_class() -> Any:
+    import xmlschema.utils.streams as st
+    return getattr(st, 'DefusableTextReader', None)
+
+
+def detect_variant() -> dict:
+    """Which of the repairs of C13-F2 / C13-F3 the tree under check carries -- by BEHAVIOUR of the real classes:
+    grow_buf:  a DefusableReader that read two pulldom blocks beyond an 8 KiB buffer rewinds and re-delivers the
+               original bytes;  wrap_text: defuse_xml accepts a non-seekable io.TextIOBase and XMLResource.open()
+               takes that branch;  grow_text: the same probe as grow_buf on the reader defuse_xml wrapped it in.
+    A rewind that succeeds but delivers other bytes is NOT the repair (seeded change C13-3): reported as 'current',
+    so that the model keeps predicting the refusal and the run shows the difference."""
+    global VARIANT
+    if VARIANT is not None:
+        return VARIANT
+    from xmlschema.utils.streams import DefusableReader
+    from xmlschema.resources.sax import defuse_xml
+    from xmlschema import XMLResource
+    v = {'grow_buf': False, 'wrap_text': False, 'grow_text': False}
+    data = synth(40000)
+    try:
+        rd = DefusableReader(NSBuf(data), 8192)
+        rd.read(16364), rd.read(16364)
+        v['grow_buf'] = rd.seek(0) == 0 and rd.read() == data
+    except OSError:
+        pass
+    try:
+        w = defuse_xml(NSText('<r/>'))
+        XMLResource(NSText('<r/>'), defuse='always')
+        v['wrap_text'] = isinstance(w, io.TextIOBase) and w.read() == '<r/>'
+    except Exception:       # noqa
+        pass
+    cls = text_reader_class()
+    if v['wrap_text'] and cls is not None:
+        text = data.decode('latin-1')
+        try:
+            rd = cls(NSText(text), 8192)
+            rd.read(16364), rd.read(16364)
+            v['grow_text'] = rd.seek(0) == 0 and rd.read() == text
+        except OSError:
+            pass
+    VARIANT = v
+    return v
 
 
 def install_observers() -> None:
@@ -225,6 +319,47 @@ def install_observers() -> None:
             raise
 
     DefusableReader.seek = seek
+    tcls = text_reader_class()
+    if tcls is not None:
+        orig_tseek = tcls.seek
+
+        def tseek(self, pos, whence=0):         # noqa
+            rec = {'pos_before': self._pos, 'target': pos, 'buf': len(self._buffer), 'ok': True, 'text': True}
+            if Obs.active:
+                Obs.seeks.append(rec)
+            try:
+                return orig_tseek(self, pos, whence)
+            except BaseException:
+                rec['ok'] = False
+                raise
+
+        tcls.seek = tseek
+    # the external-entity resolver trap: the SAX machinery that would resolve and open an external entity
+    from xml.sax import expatreader as _er, handler as _h, saxutils as _su
+    orig_eer = _er.ExpatParser.external_entity_ref
+    orig_res = _h.EntityResolver.resolveEntity
+    orig_pis = _su.prepare_input_source
+
+    def external_entity_ref(self, context, base, sysid, pubid):     # noqa
+        if Obs.active:
+            Obs.resolver.append(('external_entity_ref', str(sysid)[:80]))
+        return orig_eer(self, context, base, sysid, pubid)
+
+    def resolveEntity(self, publicId, systemId):                    # noqa
+        if Obs.active:
+            Obs.resolver.append(('resolveEntity', str(systemId)[:80]))
+        return orig_res(self, publicId, systemId)
+
+    def prepare_input_source(source, base=''):                      # noqa
+        if Obs.active and not hasattr(source, 'read') and not (hasattr(source, 'getByteStream') and (
+                source.getByteStream() is not None or source.getCharacterStream() is not None)):
+            Obs.resolver.append(('prepare_input_source', str(getattr(source, 'getSystemId', lambda: source)())[:80]))
+        return orig_pis(source, base)
+
+    _er.ExpatParser.external_entity_ref = external_entity_ref
+    _h.EntityResolver.resolveEntity = resolveEntity
+    _su.prepare_input_source = prepare_input_source
+    _er.saxutils.prepare_input_source = prepare_input_source
 
     from xmlschema.resources.xml_loader import XMLResourceLoader
     orig_open = xr.XMLResource.open
@@ -346,7 +481,8 @@ def body_of(p: dict, role: str) -> str:
 class Mat:
     """a materialised payload: bytes printed by the Lean grammar (or by the plain printer when Lean is
     unavailable), labels computed by the Lean functions"""
-    __slots__ = ('ast', 'text', 'data', 'total', 'tag_end', 'handler', 'regular', 'refuse', 'irregular', 'wf')
+    __slots__ = ('ast', 'text', 'data', 'total', 'tag_end', 'ctotal', 'ctag_end', 'handler', 'regular', 'refuse',
+                 'irregular', 'wf', 'body')
 
 
 def materialise(ctx: Ctx, drv: Optional[Driver], asts: list[dict], bodies: list[str], encodings: list[str],
@@ -388,6 +524,8 @@ def materialise(ctx: Ctx, drv: Optional[Driver], asts: list[dict], bodies: list[
         x.data = (b'\xef\xbb\xbf' if bom else b'') + x.text.encode(codec)
         x.tag_end = (3 if bom else 0) + len(x.text[:idx].encode(codec))
         x.total = len(x.data)
+        x.ctotal, x.ctag_end = len(x.text), idx       # the same two numbers in characters (text streams)
+        x.body = body
         out.append(x)
     return out
 
@@ -402,15 +540,28 @@ def handler_refuses(x: Mat) -> bool:
 
 # channel: (name, needs bytes?, static facts)
 CHANNELS = ['text', 'bytes', 'StringIO', 'BytesIO', 'path', 'file-url', 'fileb', 'filet', 'nsraw', 'nsbuf',
-            'nsbufreader', 'nstext', 'url-seekable', 'url-nonseekable', 'url-seekable-opener', 'url-nonseekable-opener']
+            'nsbufreader', 'nstext', 'nstextio', 'url-seekable', 'url-nonseekable', 'url-seekable-opener', 'url-nonseekable-opener']
 STATIC = {      # (seekable, io kind, has url) of the stream `open()` looks at
-    'text': (True, 'other', False), 'bytes': (True, 'buffered', False), 'StringIO': (True, 'other', False),
+    'text': (True, 'text', False), 'bytes': (True, 'buffered', False), 'StringIO': (True, 'text', False),
     'BytesIO': (True, 'buffered', False), 'path': (True, 'buffered', True), 'file-url': (True, 'buffered', True),
-    'fileb': (True, 'buffered', False), 'filet': (True, 'other', False), 'nsraw': (False, 'raw', False),
-    'nsbuf': (False, 'buffered', False), 'nsbufreader': (False, 'buffered', False), 'nstext': (False, 'other', False),
+    'fileb': (True, 'buffered', False), 'filet': (True, 'text', False), 'nsraw': (False, 'raw', False),
+    'nsbuf': (False, 'buffered', False), 'nsbufreader': (False, 'buffered', False), 'nstext': (False, 'text', False),
+    'nstextio': (False, 'text', False),
     'url-seekable': (True, 'other', True), 'url-nonseekable': (False, 'buffered', True),
     'url-seekable-opener': (True, 'other', True), 'url-nonseekable-opener': (False, 'buffered', True),
 }
+
+
+STR_CHANNELS = ('text', 'StringIO', 'filet', 'nstext', 'nstextio')     # the parser is fed str: units are characters
+
+
+def units(x: 'Mat', ch: str) -> tuple[int, int]:
+    """(length of the document, end of its first start tag) in the units the stream of channel `ch` delivers"""
+    if ch not in STR_CHANNELS:
+        return x.total, x.tag_end
+    # streams that decode the bytes of the document deliver its byte order mark as one more character
+    bom = 1 if ch in ('nstext', 'filet') and x.data.startswith(b'\xef\xbb\xbf') else 0
+    return x.ctotal + bom, x.ctag_end + bom
 
 
 def make_source(ch: str, text: str, data: bytes, path: str, urlpath: str) -> tuple[Any, dict, Any]:
@@ -440,7 +591,10 @@ def make_source(ch: str, text: str, data: bytes, path: str, urlpath: str) -> tup
     if ch == 'nsbufreader':
         return io.BufferedReader(NSRaw(data)), {}, None
     if ch == 'nstext':
-        return io.TextIOWrapper(io.BufferedReader(NSRaw(data)), encoding='utf-8'), {}, None
+        # newline='': no newline translation, the stream delivers one character per character of the document
+        return io.TextIOWrapper(io.BufferedReader(NSRaw(data)), encoding='utf-8', newline=''), {}, None
+    if ch == 'nstextio':
+        return NSText(text), {}, None
     if ch.startswith('url-'):
         kw = {'opener': STUB_OPENER} if ch.endswith('-opener') else {}
         return HOST + urlpath, kw, None
@@ -471,7 +625,7 @@ def canon_tree(root: Any) -> str:
 
 
 def run_real(R: str, role: str, ch: str, mode: str, base_arg: Optional[str], text: str, data: bytes,
-             fname: str) -> dict:
+             fname: str, lazy: bool = False) -> dict:
     """One construction on the real code; returns outcome record."""
     import xmlschema
     from xmlschema import XMLResource, XMLSchema10
@@ -481,6 +635,8 @@ def run_real(R: str, role: str, ch: str, mode: str, base_arg: Optional[str], tex
     Obs.table[urlpath] = data
     Obs.seekable_response = 'nonseekable' not in ch
     kwargs: dict[str, Any] = {'defuse': mode}
+    if lazy and role == 'instance':
+        kwargs['lazy'] = True
     closer = None
     if role == 'included':
         # a clean main schema (given as text) includes the payload through channel path / url
@@ -497,6 +653,7 @@ def run_real(R: str, role: str, ch: str, mode: str, base_arg: Optional[str], tex
         if base_arg is not None:
             kwargs['base_url'] = base_arg
     Obs.opens, Obs.served, Obs.defuse_calls, Obs.seeks = [], [], [], []
+    Obs.resolver, Obs.requests, Obs.net = [], [], []
     out: dict[str, Any] = {'outcome': 'parsed', 'tree': None, 'exc': None}
     with warnings.catch_warnings():
         warnings.simplefilter('ignore')
@@ -505,6 +662,10 @@ def run_real(R: str, role: str, ch: str, mode: str, base_arg: Optional[str], tex
             if role == 'instance':
                 res = XMLResource(src, **kwargs)
                 out['tree'] = canon_tree(res.root)
+                if kwargs.get('lazy') and (STATIC[ch][0] or STATIC[ch][2]):
+                    # a lazy resource holds the root only: walk the document through further open() calls
+                    # (each of them defuses again); streams that cannot be re-read are left at the root
+                    out['tree'] += '|' + '|'.join(canon_tree(e) for e in res.iter_depth(mode=2))
             else:
                 schema = XMLSchema10(src, **kwargs)
                 out['tree'] = ','.join(sorted(k for k in schema.maps.elements if not k.startswith('{' + XS)))
@@ -526,6 +687,12 @@ def run_real(R: str, role: str, ch: str, mode: str, base_arg: Optional[str], tex
     out['seeks'] = list(Obs.seeks)
     out['secret_opened'] = any(p.endswith('secret.txt') for p in Obs.opens)
     out['ext_served'] = [u for u in Obs.served if u.endswith('ext.dtd')]
+    # the traps: nothing may go through the SAX entity-resolution machinery, no request other than for the
+    # resource itself, no socket activity
+    own = ('/' + fname, )
+    out['resolver'] = list(Obs.resolver)
+    out['foreign_requests'] = [u for u in Obs.requests if not u.endswith(own)]
+    out['net'] = list(Obs.net)
     return out
 
 
@@ -542,7 +709,8 @@ def observed_plan(out: dict, role: str) -> str:
         return 'second-open'
     if c['seekable']:
         return 'rewind'
-    return 'wrap-raw' if c['io'] == 'raw' else 'wrap-buffered' if c['io'] == 'buffered' else 'wrap-other'
+    return ('wrap-raw' if c['io'] == 'raw' else 'wrap-buffered' if c['io'] == 'buffered' else
+            'wrap-text' if c['io'] == 'text' and c['result'] != 'XMLResourceError' else 'wrap-other')
 
 
 def load_known() -> list[dict]:
@@ -573,12 +741,12 @@ def known_match(case: dict, detail: dict) -> Optional[str]:
         return None
     if seekable:
         return None
-    if kind == 'other' and not has_url:
-        return 'C13-F3'                                   # non-seekable text stream: can never be defused
-    if case.get('refuse'):
-        return None                                        # the one below concerns clean documents only
+    if kind == 'text' and not has_url and not detail.get('seeks') and "can't defuse" in (detail.get('msg') or ''):
+        return 'C13-F3'                                   # non-seekable text stream: refused by open(), never scanned
+    if case.get('refuse') and not case.get('irregular'):
+        return None            # the one below concerns documents the scan lets through (clean, or C13-F4/F5 shaped)
     sk = [s for s in detail.get('seeks', []) if s['target'] == 0]
-    if kind in ('buffered', 'raw') and not case['channel'].endswith('-opener'):
+    if kind in ('buffered', 'raw', 'text') and not case['channel'].endswith('-opener'):
         if sk and sk[-1]['pos_before'] > sk[-1]['buf']:
             return 'C13-F2'                               # scan went beyond the initial buffer
     return None
@@ -601,6 +769,10 @@ def evaluate(ctx: Ctx, case: dict, out: dict, reference: Optional[dict], does_ap
         return
     if not does_apply:
         return
+    if out.get('resolver') or out.get('foreign_requests') or out.get('net'):
+        det['traps'] = {k: out.get(k) for k in ('resolver', 'foreign_requests', 'net')}
+        ctx.failure('the external-entity resolver / opener trap fired although defusing applies: something tried '
+                    'to fetch an external resource', case, det)
     if case['refuse']:
         if out['outcome'] != 'forbidden':
             fail('defusing applies and the document declares an entity / external subset, '
@@ -639,6 +811,10 @@ def explore(ctx: Ctx, drv: Optional[Driver], full: bool) -> None:
         xmlschema.XMLSchema10(f'<xs:schema xmlns:xs="{XS}"/>')
         P = payloads(R, BIG)
         bases = [None, R, HOST + '/dir/']
+        V = detect_variant()
+        ctx.extra['variant'] = V
+        for k_, b_ in V.items():
+            ctx.count(f'variant:{k_}={b_}')
         # ---- print every (payload, kind of document, encoding) with the Lean grammar -----------------
         keys, asts, bodies, encs_ = [], [], [], []
         for p in P:
@@ -667,7 +843,7 @@ def explore(ctx: Ctx, drv: Optional[Driver], full: bool) -> None:
                     with open(os.path.join(R, fname), 'wb') as f:
                         f.write(data)
                     for ci, ch in enumerate(chans):
-                        if enc != 'utf-8' and ch in ('text', 'StringIO', 'filet', 'nstext'):
+                        if enc != 'utf-8' and ch in STR_CHANNELS:
                             continue        # str channels carry no byte encoding
                         for mi, mode in enumerate(MODES):
                             has_url = STATIC[ch][2] or role == 'included'
@@ -683,10 +859,13 @@ def explore(ctx: Ctx, drv: Optional[Driver], full: bool) -> None:
                                         'payload': p['name'], 'encoding': enc, 'refuse': x.refuse}
                                 if x.irregular:
                                     case['irregular'] = x.irregular
-                                out = run_real(R, role, ch, mode, base_arg, text, data, fname)
+                                lazy = role == 'instance' and (pi + ci + mi) % 2 == 1
+                                if lazy:
+                                    case['lazy'] = True
+                                out = run_real(R, role, ch, mode, base_arg, text, data, fname, lazy)
                                 ref = None
                                 if does_apply and not x.refuse:
-                                    ref = run_real(R, role, ch, 'never', base_arg, text, data, fname)
+                                    ref = run_real(R, role, ch, 'never', base_arg, text, data, fname, lazy)
                                 evaluate(ctx, case, out, ref, does_apply)
                                 if role == 'included':
                                     # the main schema is a text source: it is scanned first iff defusing applies to it
@@ -707,9 +886,11 @@ def explore(ctx: Ctx, drv: Optional[Driver], full: bool) -> None:
                                     elif role == 'included':
                                         seekable, kind = STATIC[ch][0], STATIC[ch][1]
                                     sk = [s_ for s_ in out['seeks'] if s_['target'] == 0]
-                                    reqs.append({'op': 'doc', 'mode': mode, 'base': base_class(eff_base), 'seekable': seekable,
-                                                 'io': kind, 'opener': ch.endswith('-opener'), 'url': has_url,
-                                                 'must_refuse': handler_refuses(x), 'total': x.total, 'tag_end': x.tag_end})
+                                    tot, tend = units(x, ch)
+                                    reqs.append({'op': 'doc', 'variant': V, 'mode': mode, 'base': base_class(eff_base),
+                                                 'seekable': seekable, 'io': kind, 'opener': ch.endswith('-opener'),
+                                                 'url': has_url, 'must_refuse': handler_refuses(x), 'total': tot,
+                                                 'tag_end': tend})
                                     res_outcome = out['outcome']
                                     if role == 'included' and calls:
                                         # the loader turns an OSError of an included resource into a skipped include
@@ -717,7 +898,8 @@ def explore(ctx: Ctx, drv: Optional[Driver], full: bool) -> None:
                                                        'XMLResourceOSError': 'oserror'}.get(calls[-1]['result'], out['outcome'])
                                     impl = {'plan': plan, 'outcome': res_outcome}
                                     if sk and not handler_refuses(x):
-                                        impl['scan_end'], impl['buf_len'] = sk[-1]['pos_before'], sk[-1]['buf']
+                                        # the first seek(0) is the rewind of the scan of the first open()
+                                        impl['scan_end'], impl['buf_len'] = sk[0]['pos_before'], sk[0]['buf']
                                         ctx.count('scan-end-compared')
                                     pend.append((case, impl))
         if drv is not None:
@@ -764,14 +946,57 @@ def real_first_handler(data: bytes) -> dict:
         return {'v': 'other', 'msg': msg[:80]}
 
 
-GRAMMAR_CHANNELS = ['bytes', 'BytesIO', 'nsraw', 'nsbuf', 'nsbufreader', 'fileb', 'path']
+GRAMMAR_CHANNELS = ['bytes', 'BytesIO', 'nsraw', 'nsbuf', 'nsbufreader', 'fileb', 'path', 'text', 'StringIO', 'filet',
+                    'nstext', 'nstextio', 'file-url', 'url-seekable', 'url-nonseekable', 'url-seekable-opener',
+                    'url-nonseekable-opener']
+INCLUDED_CHANNELS = ['path', 'file-url', 'url-seekable', 'url-nonseekable', 'url-seekable-opener', 'url-nonseekable-opener']
+GRAMMAR_ROLES = ['instance', 'schema', 'instance', 'included', 'instance', 'schema']
+# paddings that put the first start tag around the 4-block edge (65456) and the buffer edge (65536)
+PADS = [65200, 65380, 65440, 65470, 65520, 65560, 70000, 82000]
+SCHEMA_BODY = f'<xs:schema xmlns:xs="{XS}"><xs:element name="m" type="xs:string"/></xs:schema>'
 
 
-def grammar_case(ctx: Ctx, R: str, name: str, x: Mat, ch: str, mode: str = 'always') -> None:
+def entity_names(ast: dict) -> tuple[list, list]:
+    """(general, parameter) entity names written in the internal subset"""
+    d = ast['doctype']
+    sub = (d.get('subset') or []) if d else []
+    return ([x[2] for x in sub if x[0] == 'entity' and not x[1]], [x[2] for x in sub if x[0] == 'entity' and x[1]])
+
+
+def doc_request(role: str, ch: str, mode: str, eff_base: Optional[str], x: Mat, out: dict) -> tuple[dict, dict]:
+    """the `doc` request for the model and what was observed on the real code (way of defusing, outcome of the
+    resource, position / buffer length at the rewind of the scan)"""
+    has_url = STATIC[ch][2] or role == 'included'
+    if role == 'included':
+        out['main_defused'] = applies(mode, None)
+    plan = observed_plan(out, role)
+    seekable, kind, _ = STATIC[ch]
+    calls = out['defuse_calls'][1:] if (role == 'included' and out['main_defused']) else out['defuse_calls']
+    if calls and calls[0]['rewind']:
+        seekable, kind = calls[0]['seekable'], calls[0]['io']
+    tot, tend = units(x, ch)
+    req = {'op': 'doc', 'variant': detect_variant(), 'mode': mode, 'base': base_class(eff_base), 'seekable': seekable,
+           'io': kind, 'opener': ch.endswith('-opener'), 'url': has_url, 'must_refuse': handler_refuses(x),
+           'total': tot, 'tag_end': tend}
+    res_outcome = out['outcome']
+    if role == 'included' and calls:
+        res_outcome = {'ok': 'parsed', 'XMLResourceForbidden': 'forbidden',
+                       'XMLResourceOSError': 'oserror'}.get(calls[-1]['result'], out['outcome'])
+    impl = {'plan': plan, 'outcome': res_outcome}
+    sk = [s_ for s_ in out['seeks'] if s_['target'] == 0]
+    if sk and not handler_refuses(x):
+        impl['scan_end'], impl['buf_len'] = sk[0]['pos_before'], sk[0]['buf']
+    return req, impl
+
+
+def grammar_case(ctx: Ctx, R: str, name: str, x: Mat, ch: str, mode: str = 'always', role: str = 'instance',
+                 lazy: bool = False, docs: Optional[list] = None) -> None:
     """one prolog of the grammar on the real code: first handler of the real scan vs the model, and the property
-    itself through XMLResource on channel `ch`"""
-    case = {'grammar': name, 'role': 'instance', 'channel': ch, 'mode': mode, 'base': 'absent', 'refuse': x.refuse,
+    itself through XMLResource / XMLSchema on channel `ch`"""
+    case = {'grammar': name, 'role': role, 'channel': ch, 'mode': mode, 'base': 'absent', 'refuse': x.refuse,
             'ast': x.ast if len(x.data) < 2000 else None}
+    if lazy:
+        case['lazy'] = True
     if x.irregular:
         case['irregular'] = x.irregular
     real = real_first_handler(x.data)
@@ -781,15 +1006,138 @@ def grammar_case(ctx: Ctx, R: str, name: str, x: Mat, ch: str, mode: str = 'alwa
         if real != x.handler:
             ctx.mismatch('first handler reached by the real SafeExpatParser vs firstHandler', case, real, x.handler)
     fname = 'g.xml'
-    if ch in ('fileb', 'path'):
-        with open(os.path.join(R, fname), 'wb') as f:
-            f.write(x.data)
-    out = run_real(R, 'instance', ch, mode, None, x.text, x.data, fname)
-    eff = os.path.dirname('file://' + R + '/' + fname) if ch == 'path' else None
+    with open(os.path.join(R, fname), 'wb') as f:
+        f.write(x.data)
+    has_url = STATIC[ch][2] or role == 'included'
+    eff = None
+    if has_url:
+        eff = os.path.dirname(('file://' + R + '/' + fname) if ch in ('path', 'file-url') else HOST + '/' + fname)
     does_apply = applies(mode, eff)
-    ref = run_real(R, 'instance', ch, 'never', None, x.text, x.data, fname) if does_apply and not x.refuse else None
+    out = run_real(R, role, ch, mode, None, x.text, x.data, fname, lazy)
+    ref = run_real(R, role, ch, 'never', None, x.text, x.data, fname, lazy) if does_apply and not x.refuse else None
     evaluate(ctx, case, out, ref, does_apply)
     ctx.case(case, x.ast['doctype'] is not None, tag='grammar')
+    if docs is not None:
+        docs.append((case,) + doc_request(role, ch, mode, eff, x, out))
+    ctx.count('grammar:role:' + role)
+    ctx.count('grammar:channel:' + ch)
+    if x.irregular and role == 'instance' and does_apply:
+        # C13-F4 / C13-F5: what IS guaranteed -- every reference to an entity the document writes is an
+        # "undefined entity" error, nothing is expanded, the resolver / opener traps stay silent (evaluate)
+        gen, _ = entity_names(x.ast)
+        for n in (gen or ['zz'])[:3]:
+            body = f'<r>t&{n};</r>'
+            text = x.text[:len(x.text) - len(x.body)] + body
+            data = x.data[:len(x.data) - len(x.body.encode('utf-8'))] + body.encode('utf-8')
+            c2 = dict(case, ref=n)
+            with open(os.path.join(R, fname), 'wb') as f:
+                f.write(data)
+            c2.pop('lazy', None)                 # a lazy resource stops at the root start tag
+            o2 = run_real(R, role, ch, mode, None, text, data, fname, False)
+            evaluate(ctx, c2, o2, None, does_apply)
+            ctx.count('irregular-ref-checked')
+            if o2['outcome'] == 'parsed' and not (o2['exc'] and 'undefined entity' in (o2.get('msg') or '')):
+                ctx.failure('a reference to an entity of a document the scan did not refuse (C13-F4 / C13-F5 shape) is '
+                            'not an "undefined entity" error: something was expanded', c2,
+                            {k: o2.get(k) for k in ('outcome', 'exc', 'msg', 'tree')})
+
+
+def recorded_prolog_events(data: bytes, ast: dict) -> list:
+    """the complete sequence the parser reports for the prolog, recorded by handlers that return instead of raising
+    (the external-entity resolver trap of the event model)"""
+    from xml.sax import expatreader, SAXParseException
+    from xml.dom import pulldom
+    rec: list = []
+    d = ast['doctype']
+    ext = d.get('ext') if d else None
+    ext_id = None if ext is None else ((ext[1][1], None) if ext[0] == 'system' else (ext[2][1], ext[1][1]))
+
+    class Rec(expatreader.ExpatParser):
+        def reset(self):
+            super().reset()
+            p = self._parser
+            p.EntityDeclHandler = lambda name, pe, value, base, sysid, pubid, notation: rec.append(
+                ['declared', {'v': 'entity', 'name': name}])
+            p.UnparsedEntityDeclHandler = lambda name, base, sysid, pubid, notation: rec.append(
+                ['declared', {'v': 'unparsed', 'name': name}])
+
+            def ext_ref(context, base, sysid, pubid):
+                rec.append(['ext', sysid, pubid])
+                return 1
+            p.ExternalEntityRefHandler = ext_ref
+
+    try:
+        for event, _node in pulldom.parse(io.BytesIO(data), Rec()):
+            if event == pulldom.START_ELEMENT:
+                break
+    except SAXParseException:
+        pass
+    out = []
+    for k, e in enumerate(rec):
+        if e[0] == 'ext':
+            # a request for an external parameter entity (it follows the declaration of that entity) is not an event
+            # of the model; the request for the external subset is the last event and carries the DOCTYPE's identifier
+            # (the public identifier is reported normalised by expat: compared on the system identifier)
+            if k == len(rec) - 1 and ext_id is not None and e[1] == ext_id[0]:
+                out.append(['ext-subset'])
+        else:
+            out.append(e)
+    return out
+
+
+def real_ref_event(R: str, prolog_text: str, name: str) -> list:
+    """the fate of a reference &name; in the content when the document is parsed by the library without defusing"""
+    from xmlschema import XMLResource
+    from xmlschema.exceptions import XMLSchemaException
+    try:
+        XMLResource(prolog_text + f'<r>&{name};</r>', defuse='never')
+        return ['expanded', name]
+    except (XMLSchemaException, ET.ParseError) as e:
+        msg = str(e)
+        if 'undefined entity' in msg:
+            return ['undefined', name]
+        if 'binary entity' in msg:
+            return ['binary', name]
+        return ['expanded', name]         # the replacement text was parsed (and is not well-formed content)
+
+
+def event_model(ctx: Ctx, drv: Optional[Driver], R: str, fam: list, mats: list) -> None:
+    """driver op `events`: prologEvents / refEvent of Model/Prolog.lean against the real parsers"""
+    if drv is None:
+        return
+    reqs, pend = [], []
+    for (name, _), x in zip(fam, mats):
+        if x.ast['doctype'] is None or len(x.data) > 4000:
+            continue
+        gen, par = entity_names(x.ast)
+        refs = list(dict.fromkeys(gen[:3] + par[:1] + ['zz']))
+        sub = x.ast['doctype'].get('subset') or []
+        nested = any(e[0] == 'entity' and e[1] and e[3][0] == 'value' and '<!ENTITY' in e[3][1][1] for e in sub)
+        if nested:
+            ctx.count('events:skipped-nested-declaration-in-pe-value')
+            continue
+        ptext = x.text[:len(x.text) - len(x.body)]
+        impl = {'prolog': recorded_prolog_events(x.data, x.ast), 'refs': [real_ref_event(R, ptext, n) for n in refs]}
+        reqs.append({'op': 'events', 'ast': x.ast, 'refs': refs})
+        pend.append(({'events': name, 'ast': x.ast, 'refs': refs}, impl, x))
+    for (case, impl, x), m in zip(pend, drv.query(reqs)):
+        ctx.traces += 1
+        ctx.case(case, bool(impl['prolog']) or any(r[0] != 'undefined' for r in impl['refs']), tag='events')
+        for r in impl['refs']:
+            ctx.count('events:ref:' + r[0])
+        if 'err' in m:
+            ctx.mismatch('driver error (events)', case, impl, m)
+        elif m['prolog'] != impl['prolog']:
+            ctx.mismatch('events the parser reports for the prolog (recording handlers) vs prologEvents', case, impl, m)
+        elif m['refs'] != impl['refs']:
+            ctx.mismatch('fate of the entity references of the content (library parse, defuse=never) vs refEvent', case, impl, m)
+        # the restated guarantee, read directly on the real parsers: where the scan reaches no handler nothing is
+        # declared, requested or expanded
+        if x.handler is not None and x.handler['v'] == 'clean':
+            ctx.count('events:clean-verdict-checked')
+            if impl['prolog'] or any(r[0] != 'undefined' for r in impl['refs']):
+                ctx.failure('the scan reaches no handler but the parser declares / requests / expands something',
+                            case, impl)
 
 
 def grammar_family(ctx: Ctx, drv: Optional[Driver], R: str, full: bool) -> None:
@@ -800,13 +1148,43 @@ def grammar_family(ctx: Ctx, drv: Optional[Driver], R: str, full: bool) -> None:
     nrand = ctx.pick(400, 4000)
     fam += [(f'random-{i}', G.with_root(G.random_prolog(ctx.rng), 'r')) for i in range(nrand)]
     ctx.count('grammar:random', nrand)
-    mats = materialise(ctx, drv, [a for _, a in fam], ['<r>t</r>'] * len(fam), ['utf-8'] * len(fam), 'grammar family')
-    for i, ((name, _), x) in enumerate(zip(fam, mats)):
-        grammar_case(ctx, R, name, x, GRAMMAR_CHANNELS[i % len(GRAMMAR_CHANNELS)])
+    # sizes straddling the 64 KiB buffer: every 12th prolog gets a padding comment in front of its DOCTYPE
+    npad = 0
+    for i in range(5, len(fam), ctx.pick(12, 40)):
+        n, a = fam[i]
+        a = json.loads(json.dumps(a))
+        pad = PADS[npad % len(PADS)]
+        a['misc1'] = [['comment', 'p' * pad]] + a['misc1']
+        fam[i] = (n + f',pad={pad}', a)
+        npad += 1
+    ctx.count('grammar:padded', npad)
+    roles = [GRAMMAR_ROLES[i % len(GRAMMAR_ROLES)] for i in range(len(fam))]
+    bodies = ['<r>t</r>' if r == 'instance' else SCHEMA_BODY for r in roles]
+    mats = materialise(ctx, drv, [a for _, a in fam], bodies, ['utf-8'] * len(fam), 'grammar family')
+    docs: list = []
+    for i, ((name, _), x, role) in enumerate(zip(fam, mats, roles)):
+        chans = INCLUDED_CHANNELS if role == 'included' else GRAMMAR_CHANNELS
+        ch = chans[(i // len(GRAMMAR_ROLES) + i) % len(chans)]
+        grammar_case(ctx, R, name, x, ch, role=role, lazy=(role == 'instance' and i % 4 == 2),
+                     docs=docs if drv is not None else None)
         if x.irregular:
             ctx.count('grammar:irregular:' + x.irregular)
         if x.handler is not None:
             ctx.count('grammar:expected:' + x.handler['v'])
+    if drv is not None:
+        for (case, _, impl), m in zip(docs, drv.query([d[1] for d in docs])):
+            ctx.traces += 1
+            if 'scan_end' in impl:
+                ctx.count('scan-end-compared')
+            if 'err' in m:
+                ctx.mismatch('driver error', case, impl, m)
+            elif m['plan'] != impl['plan']:
+                ctx.mismatch('way of defusing chosen by open() (grammar family)', case, impl, m)
+            elif m['outcome'] != impl['outcome'] and impl['outcome'] != 'FOREIGN':
+                ctx.mismatch('outcome of defuse + parse (grammar family)', case, impl, m)
+            elif 'scan_end' in impl and (impl['scan_end'], impl['buf_len']) != (m['scan_end'], m['buf_len']):
+                ctx.mismatch('position of the reader after the scan / length of its buffer (grammar family)', case, impl, m)
+    event_model(ctx, drv, R, fam, mats)
 
 
 # ----------------------------------------------------------------------------------------------
@@ -959,7 +1337,7 @@ def run_build(ctx: Ctx, R: str, spec: dict, PAY: list, pm: list) -> tuple[dict, 
         return {'id': nd['id'], 'kind': nd['kind'], 'base': base_class(nd['base']), 'seekable': seekable, 'io': kind,
                 'opener': use_opener, 'url': nd['url'] is not None, 'must_refuse': handler_refuses(nd['x']),
                 'total': nd['total'], 'tag_end': nd['tag_end'], 'children': [facts(c) for c in nd['children']]}
-    return case, det, {'op': 'build', 'mode': mode, 'root': facts(main)}
+    return case, det, {'op': 'build', 'variant': detect_variant(), 'mode': mode, 'root': facts(main)}
 
 
 def build_traces(ctx: Ctx, drv: Optional[Driver], R: str, full: bool) -> None:
@@ -1018,11 +1396,29 @@ def digest(d: bytes) -> list:
 
 
 def reader_scripts(ctx: Ctx, drv: Driver) -> None:
-    """seeded op-for-op comparison of the real DefusableReader with the model"""
+    """seeded op-for-op comparison of the real DefusableReader (and DefusableTextReader when the tree has it) with
+    the model `Reader.run` / `Reader.exec`, and of scan-rewind-parse sequences with `Reader.readMany`"""
     from xmlschema.utils.streams import DefusableReader
     rng = ctx.rng
+    V = detect_variant()
+    classes = [('bytes', DefusableReader, V['grow_buf'])]
+    tcls = text_reader_class()
+    if tcls is not None:
+        classes.append(('text', tcls, V['grow_text']))
+
+    def make(kind: str, cls: Any, data: bytes, size: int) -> Any:
+        return cls(NSBuf(data), size) if kind == 'bytes' else cls(NSText(data.decode('latin-1')), size)
+
+    def raw(d: Any) -> bytes:
+        return d if isinstance(d, bytes) else d.encode('latin-1')
+
+    def state(rd: Any) -> dict:
+        buf = rd._buffer_size if hasattr(rd, '_buffer_size') else len(rd._buffer)
+        return {'pos': rd._pos, 'buf': buf, 'grow': bool(getattr(rd, '_growing', False))}
+
     reqs, impls, cases = [], [], []
     for k in range(ctx.pick(300, 3000)):
+        kind, cls, grow = classes[k % len(classes)]
         size = rng.choice([0, 100, 8192, 8192, 8192, 9000, 10000, 16384]) if rng.random() < 0.93 else 65536
         B = max(size, 8192)
         length = rng.choice([0, 1, 100, B - 1, B, B + 1, 2 * B, rng.randint(0, 3 * B)])
@@ -1037,32 +1433,86 @@ def reader_scripts(ctx: Ctx, drv: Driver) -> None:
                 ops.append(['seek', rng.choice([0, 0, 0, 1, B, B + 1, rng.randint(0, 2 * B)])])
             else:
                 ops.append(['tell'])
+        if k % 7 == 6:
+            # the pattern the exactness of the rewind is about: go beyond the buffer, come back, read again
+            # (with a leading seek the buffer of a growing reader is frozen first)
+            length = rng.choice([2 * B, 3 * B, B + 1 + rng.randint(0, B)])
+            ops = ([['seek', 0]] if rng.random() < 0.5 else []) + [
+                ['read', B + rng.randint(1, B)], ['seek', rng.choice([0, 0, 1, B])], ['read', rng.choice([10, B, None])]]
         data = synth(length)
-        rd = DefusableReader(NSBuf(data), size)
+        rd = make(kind, cls, data, size)
+        buf0 = state(rd)['buf']
         outs: list = []
+        case = {'reader': kind, 'grow': grow, 'size': size, 'len': length, 'ops': ops}
+        cur = 0         # the cursor of a plain byte string: the direct reading of "a transparent view of the stream"
         for op in ops:
             try:
                 if op[0] == 'read':
-                    outs.append({'d': digest(rd.read(op[1]))})
+                    d = raw(rd.read(op[1]))
+                    outs.append({'d': digest(d)})
+                    want = data[cur:] if op[1] is None else data[cur:cur + op[1]]
+                    if d != want:
+                        ctx.failure('the reader delivered bytes that are not the bytes of the stream at its position '
+                                    '(a gap or a repetition after a seek)', case,
+                                    {'at': cur, 'asked': op[1], 'got': digest(d), 'stream': digest(want)})
+                    cur += len(d)
                 elif op[0] == 'seek':
                     outs.append({'at': rd.seek(op[1])})
+                    cur = op[1]
                 else:
                     outs.append({'at': rd.tell()})
             except OSError:
                 outs.append('oserror')
                 break
-        case = {'reader': True, 'size': size, 'len': length, 'ops': ops}
         crossed = any(isinstance(o, dict) and 'at' in o for o in outs) or 'oserror' in outs
         ctx.case(case, crossed, tag='reader-script')
         if 'oserror' in outs:
             ctx.count('reader:oserror')
-        reqs.append({'op': 'reader', 'size': size, 'len': length, 'ops': ops})
-        impls.append({'buf': rd._buffer_size, 'outs': outs})
+        ctx.count('reader:' + kind)
+        reqs.append({'op': 'reader', 'grow': grow, 'size': size, 'len': length, 'ops': ops})
+        impls.append({'buf': buf0, 'outs': outs, 'final': None if 'oserror' in outs else state(rd)})
         cases.append(case)
     for case, impl, m in zip(cases, impls, drv.query(reqs)):
         ctx.traces += 1
         if m != impl:
             ctx.mismatch('DefusableReader script', case, impl, m)
+    # ---- scan, rewind, parse: the bytes the parser is fed are exactly the bytes the scan saw ------------
+    reqs, impls, cases = [], [], []
+    for k in range(ctx.pick(200, 2000)):
+        kind, cls, grow = classes[k % len(classes)]
+        size = rng.choice([8192, 8192, 10000, 65536])
+        B = max(size, 8192)
+        length = rng.choice([100, B - 1, B, B + 1, B + 16364, 2 * B, rng.randint(0, 4 * B)])
+        blk = rng.choice([16364, 16364, 4096, 1000, rng.randint(1, 20000)])
+        ks = [blk] * rng.randint(0, 6) if rng.random() < 0.7 else [rng.randint(0, 20000) for _ in range(rng.randint(0, 6))]
+        ms = [rng.choice([16364, 65536, 8192, rng.randint(0, 30000)]) for _ in range(rng.randint(0, 5))]
+        data = synth(length)
+        rd = make(kind, cls, data, size)
+        scanned = b''.join(raw(rd.read(n)) for n in ks)
+        impl: dict = {'scan': digest(scanned), 'pos': state(rd)['pos'], 'buf': state(rd)['buf']}
+        case = {'reader-scan': kind, 'grow': grow, 'size': size, 'len': length, 'ks': ks, 'ms': ms}
+        try:
+            rd.seek(0)
+            impl['seek_ok'] = True
+            parsed = b''.join(raw(rd.read(n)) for n in ms)
+            rest = raw(rd.read())
+            impl['parse'], impl['rest'] = digest(parsed), digest(rest)
+            # the property of the reader on the real class, independent of Lean (what seed C13-3 broke)
+            if parsed + rest != data or scanned != data[:len(scanned)]:
+                ctx.failure('after a successful rewind the reader does not deliver exactly the bytes of the stream '
+                            '(scanned and parsed bytes differ)', case,
+                            {'scanned': len(scanned), 'parsed+rest': len(parsed + rest), 'stream': length})
+        except OSError:
+            impl['seek_ok'] = False
+        ctx.case(case, impl['pos'] > B, tag='reader-scan')
+        ctx.count('reader-scan:' + ('rewound' if impl['seek_ok'] else 'refused') + (':beyond-buffer' if impl['pos'] > B else ''))
+        reqs.append({'op': 'scan', 'grow': grow, 'size': size, 'len': length, 'ks': ks, 'ms': ms})
+        impls.append(impl)
+        cases.append(case)
+    for case, impl, m in zip(cases, impls, drv.query(reqs)):
+        ctx.traces += 1
+        if m != impl:
+            ctx.mismatch('scan / rewind / parse on the real reader vs Reader.readMany', case, impl, m)
 
 
 def translate(ctx: Ctx) -> None:
@@ -1125,14 +1575,49 @@ def replay(ctx: Ctx, obj: dict) -> int:
             print('REAL CODE:', det)
             if drv is not None:
                 print('MODEL    :', drv.query([req])[0])
+        elif 'reader' in case or 'reader-scan' in case:
+            # a script / a scan-rewind-parse sequence on the real replay reader, against a plain byte string
+            from xmlschema.utils.streams import DefusableReader
+            kind = case.get('reader') or case['reader-scan']
+            cls = DefusableReader if kind in (True, 'bytes') else text_reader_class()
+            data = synth(case['len'])
+            rd = cls(NSBuf(data), case['size']) if cls is DefusableReader else cls(NSText(data.decode('latin-1')), case['size'])
+            ops = case.get('ops') or ([['read', n] for n in case['ks']] + [['seek', 0]] + [['read', n] for n in case['ms']]
+                                      + [['read', None]])
+            cur, bad = 0, False
+            for op in ops:
+                try:
+                    if op[0] == 'read':
+                        d = rd.read(op[1])
+                        d = d if isinstance(d, bytes) else d.encode('latin-1')
+                        want = data[cur:] if op[1] is None else data[cur:cur + op[1]]
+                        print('  read', op[1], 'at', cur, '->', digest(d), 'stream has', digest(want), '' if d == want else '  <-- DIFFERENT')
+                        bad = bad or d != want
+                        cur += len(d)
+                    elif op[0] == 'seek':
+                        print('  seek', op[1], '->', rd.seek(op[1]))
+                        cur = op[1]
+                    else:
+                        print('  tell ->', rd.tell())
+                except OSError as e:
+                    print(' ', op, '-> OSError', e)
+                    break
+            if drv is not None:
+                req = ({'op': 'reader', 'grow': case.get('grow', False), 'size': case['size'], 'len': case['len'], 'ops': case['ops']}
+                       if 'ops' in case else {'op': 'scan', 'grow': case.get('grow', False), 'size': case['size'],
+                                              'len': case['len'], 'ks': case['ks'], 'ms': case['ms']})
+                print('MODEL    :', drv.query([req])[0])
+            print('FAILS ON THE REAL CODE: the reader delivered bytes that are not those of the stream' if bad else 'reader exact')
+            return 1 if bad else 0
         elif 'grammar' in case:
             if case.get('ast') is None:
                 print('the syntax tree of this case was not stored (large prolog)')
                 return 0
-            x = materialise(ctx, drv, [case['ast']], ['<r>t</r>'], ['utf-8'], 'replay')[0]
+            role = case.get('role', 'instance')
+            x = materialise(ctx, drv, [case['ast']], ['<r>t</r>' if role == 'instance' else SCHEMA_BODY], ['utf-8'], 'replay')[0]
             print('DOCUMENT :', x.data[:400])
             print('REAL SCAN:', real_first_handler(x.data), '| MODEL:', x.handler, '| direct reading must-refuse:', x.refuse)
-            grammar_case(ctx, R, case['grammar'], x, case['channel'], case.get('mode', 'always'))
+            grammar_case(ctx, R, case['grammar'], x, case['channel'], case.get('mode', 'always'), role, bool(case.get('lazy')))
         elif 'payload' in case:
             p = [q for q in payloads(R, BIG) if q['name'] == case['payload']][0]
             role, ch, mode, enc = case['role'], case['channel'], case['mode'], case.get('encoding', 'utf-8')
@@ -1145,20 +1630,24 @@ def replay(ctx: Ctx, obj: dict) -> int:
             with open(os.path.join(R, fname), 'wb') as f:
                 f.write(x.data)
             base_arg = {'absent': None, 'local': R, 'remote': HOST + '/dir/'}.get(case['base']) if not (STATIC[ch][2] or role == 'included') else None
-            out = run_real(R, role, ch, mode, base_arg, x.text, x.data, fname)
-            print('REAL CODE:', {k: out[k] for k in ('outcome', 'exc', 'defuse_calls', 'seeks', 'secret_opened', 'ext_served')},
+            lazy = bool(case.get('lazy'))
+            out = run_real(R, role, ch, mode, base_arg, x.text, x.data, fname, lazy)
+            print('REAL CODE:', {k: out[k] for k in ('outcome', 'exc', 'defuse_calls', 'seeks', 'secret_opened', 'ext_served',
+                                                     'resolver', 'foreign_requests', 'net')},
                   (out.get('tree') or '')[:120])
             eff = base_arg
             if STATIC[ch][2] or role == 'included':
                 eff = os.path.dirname(('file://' + R + '/' + fname) if ch in ('path', 'file-url') else HOST + '/' + fname)
             does_apply = applies(mode, eff)
-            ref = run_real(R, role, ch, 'never', base_arg, x.text, x.data, fname) if does_apply and not x.refuse else None
+            ref = run_real(R, role, ch, 'never', base_arg, x.text, x.data, fname, lazy) if does_apply and not x.refuse else None
             print('defusing applies:', does_apply, '| direct reading must-refuse:', x.refuse, '| handler expected by the model:', x.handler)
             if drv is not None:
                 seekable, kind_, has_url = STATIC[ch]
-                m = drv.query([{'op': 'doc', 'mode': mode, 'base': base_class(eff), 'seekable': seekable, 'io': kind_,
+                tot, tend = units(x, ch)
+                m = drv.query([{'op': 'doc', 'variant': detect_variant(), 'mode': mode, 'base': base_class(eff),
+                                'seekable': seekable, 'io': kind_,
                                 'opener': ch.endswith('-opener'), 'url': has_url or role == 'included',
-                                'must_refuse': handler_refuses(x), 'total': x.total, 'tag_end': x.tag_end}])[0]
+                                'must_refuse': handler_refuses(x), 'total': tot, 'tag_end': tend}])[0]
                 print('MODEL    :', m)
             c2 = dict(case)
             evaluate(ctx, c2, out, ref, does_apply)
